@@ -1900,6 +1900,8 @@ def run(tier: str, seed: int, replay: str | None = None) -> int:
             pick = pool
         n_page_lines = n_page_bad = n_page_fail = 0
         hist_page: dict[str, int] = {}
+        import time as _time
+        t_pages = _time.time()
         if pick:
             pages, plog = run_pages(ford, Path(d), [(cases[k]["name"], cases[k]["text"]) for k in pick])
             for k in pick:
@@ -1934,6 +1936,7 @@ def run(tier: str, seed: int, replay: str | None = None) -> int:
                         rep.failing_input(dict(case, entity=list(key), page_line=list(ln), expected=e, observed=ln[3],
                                                why=f"module page, {ln[0]} {ln[2]}: Fortran says {e}, the page prints "
                                                    f"{ln[3] if ln[3] != '-' else 'no visibility'}"), fid)
+        t_pages = round(_time.time() - t_pages, 2)
         got = drv.batch(spec_reqs)
         n_spec_bad = 0
         for (e, name, key), g in zip(spec_exp, got):
@@ -1961,6 +1964,7 @@ def run(tier: str, seed: int, replay: str | None = None) -> int:
         page_places_histogram=dict(sorted(hist_page.items())),
         page_correspondence_disagreements=n_page_bad,
         page_oracle_failures=n_page_fail,
+        page_stream_wall_s=t_pages,
         variant_of_code_under_test={"probe": VARIANT,
                                     "attr_dict_entry_deleted": "after the loop" if "a" in VARIANT else "per entity",
                                     "constructor_takes_type_permission": "in _cleanup" if "e" in VARIANT else "in correlate",
